@@ -1,4 +1,7 @@
 import Mainchain.Lemmas.Keys
+import Mainchain.Lemmas.EntBlock
+import Mainchain.Lemmas.RegistryStable
+import Mainchain.Lemmas.StreamFrame
 /-
 C18 — Distinct entities never alias each other's storage.
 Property theorems (no helper lemmas here beyond local `private` ones).
@@ -153,6 +156,276 @@ theorem c18_receiver_scan_exact (p : Nat) (r r' s : Bytes)
 theorem c18_stream_key_rejects_long (p : Nat) (r s : Bytes) (h : 255 < r.length) : streamKey p r s = none := by
   have h1 : ¬ r.length = 0 := by omega
   simp [streamKey, recvKey, lengthPrefix, h1, h]
+
+/-! ### the same at the level of the handlers: what is written to one purchase order is not read for another -/
+
+/-- **A decision writes one order.**  A successful `ProcessUndPurchaseOrder` on order `id` leaves every other order, both
+queues, the whitelist, every locked and spent record, both totals and the parameters exactly as they were. -/
+theorem c18_decision_writes_one_order (e e' : EntState) (now id dec : Nat) (sg : AddrTok)
+    (h : e.decide_ now id dec sg = .ok e') :
+    (∀ j, j ≠ id → AL.find? e'.orders j = AL.find? e.orders j) ∧
+    e'.raisedQ = e.raisedQ ∧ e'.acceptedQ = e.acceptedQ ∧ e'.whitelist = e.whitelist ∧ e'.locked = e.locked ∧
+    e'.spent = e.spent ∧ e'.totalLocked = e.totalLocked ∧ e'.totalSpent = e.totalSpent ∧ e'.params = e.params ∧
+    e'.nextId = e.nextId := by
+  simp only [EntState.decide_, bind_eq_ok, pure_eq_ok, require_eq_ok, decodeM_eq_ok] at h
+  obtain ⟨_, _, _, _, po, _, _, _, _, _, _, _, _, _, rfl⟩ := h
+  refine ⟨fun j hj => ?_, rfl, rfl, rfl, rfl, rfl, rfl, rfl, rfl, rfl⟩
+  exact AL.find_insert_ne _ _ _ _ (fun e => hj e.symm)
+
+/-- **The tally of an order reads that order only** (and the parameters): in any two states of any two runs that hold the
+same order under `id` and the same enterprise parameters, the tally at the same block time leaves the same order under
+`id` - whatever decisions the other raised orders of either state carry, and in whatever order they are tallied. -/
+theorem c18_tally_reads_only_the_order_itself (g1 g2 : GenCfg) (s1 s2 : State)
+    (h1 : FineReach g1 EntQ s1) (h2 : FineReach g2 EntQ s2) (now : Nat) (e1 e2 : EntState)
+    (ht1 : s1.ent.tally now = .ok e1) (ht2 : s2.ent.tally now = .ok e2) (hp : s1.ent.params = s2.ent.params)
+    (id : Nat) (po : PO) (hf1 : AL.find? s1.ent.orders id = some po) (hf2 : AL.find? s2.ent.orders id = some po) :
+    AL.find? e1.orders id = AL.find? e2.orders id := by
+  rw [(tally_spec s1.ent e1 now (bookInv_reachable g1 s1 h1) ht1).2 id po hf1,
+      (tally_spec s2.ent e2 now (bookInv_reachable g2 s2 h2) ht2).2 id po hf2, hp]
+
+/-- **A record writes one registration.**  In every state of every run, a successful `RecordWrkChainBlock` /
+`RecordBeaconTimestamp` for registration `id` - including the pruning it triggers - leaves every other registration, every
+record of every other registration and every storage limit exactly as they were. -/
+theorem c18_record_writes_one_registration (g : GenCfg) (hg : GenRegValid g) (s : State) (hs : FineReach g RegQ s)
+    (hq : RegQ s) (now wall id key : Nat) (rc : Rec) (o : AddrTok) (k : Nat) :
+    (∀ w', s.wrk.record now wall id key rc o = .ok (w', k) →
+      (∀ j, j ≠ id → AL.find? w'.regs j = AL.find? s.wrk.regs j ∧ ∀ h, AL.find? w'.recs (j, h) = AL.find? s.wrk.recs (j, h)) ∧
+      w'.limits = s.wrk.limits) ∧
+    (∀ b', s.bcn.record now wall id key rc o = .ok (b', k) →
+      (∀ j, j ≠ id → AL.find? b'.regs j = AL.find? s.bcn.regs j ∧ ∀ h, AL.find? b'.recs (j, h) = AL.find? s.bcn.recs (j, h)) ∧
+      b'.limits = s.bcn.limits) := by
+  constructor
+  · intro w' h
+    have hwi := wrkInv_reachable g hg s (hs.weaken (fun _ h => h.1))
+    obtain ⟨m, oa, hm, _, _, _, _, hshape⟩ := wrk_record_shape s.wrk now wall id key rc o w' k hwi hq.1 h
+    have hid : m.id = id := (hwi.reg.idsBelowNext id m hm).1
+    subst hid
+    rcases hshape with ⟨_, _, rfl⟩ | ⟨_, rfl⟩
+    · refine ⟨fun j hj => ⟨AL.find_insert_ne _ _ _ _ (fun e => hj e.symm), fun h => ?_⟩, rfl⟩
+      have hne1 : (m.id, m.lowest) ≠ (j, h) := fun e => hj (Prod.mk.inj e).1.symm
+      have hne2 : (m.id, key) ≠ (j, h) := fun e => hj (Prod.mk.inj e).1.symm
+      show AL.find? (AL.erase (insertRec s.wrk.recs (m.id, key) _) (m.id, m.lowest)) (j, h) = _
+      rw [AL.find_erase_ne _ _ _ hne1, find_insertRec_ne _ _ _ _ hne2]
+    · refine ⟨fun j hj => ⟨AL.find_insert_ne _ _ _ _ (fun e => hj e.symm), fun h => ?_⟩, rfl⟩
+      have hne2 : (m.id, key) ≠ (j, h) := fun e => hj (Prod.mk.inj e).1.symm
+      exact find_insertRec_ne _ _ _ _ hne2
+  · intro b' h
+    have hbi := bcnInv_reachable g hg s (hs.weaken (fun _ h => h.2))
+    obtain ⟨m, oa, hm, _, _, _, _, hshape⟩ := bcn_record_shape s.bcn now wall id key rc o b' k hbi hq.2 h
+    have hid : m.id = id := (hbi.reg.idsBelowNext id m hm).1
+    subst hid
+    rcases hshape with ⟨_, _, rfl⟩ | ⟨_, rfl⟩
+    · refine ⟨fun j hj => ⟨AL.find_insert_ne _ _ _ _ (fun e => hj e.symm), fun h => ?_⟩, rfl⟩
+      have hne1 : (m.id, m.lowest) ≠ (j, h) := fun e => hj (Prod.mk.inj e).1.symm
+      have hne2 : (m.id, m.last + 1) ≠ (j, h) := fun e => hj (Prod.mk.inj e).1.symm
+      show AL.find? (AL.erase (insertRec s.bcn.recs (m.id, m.last + 1) _) (m.id, m.lowest)) (j, h) = _
+      rw [AL.find_erase_ne _ _ _ hne1, find_insertRec_ne _ _ _ _ hne2]
+    · refine ⟨fun j hj => ⟨AL.find_insert_ne _ _ _ _ (fun e => hj e.symm), fun h => ?_⟩, rfl⟩
+      have hne2 : (m.id, m.last + 1) ≠ (j, h) := fun e => hj (Prod.mk.inj e).1.symm
+      exact find_insertRec_ne _ _ _ _ hne2
+
+/-- **A stream message writes one stream.**  Each of the five stream messages, when it succeeds for the pair
+(receiver `r`, sender `s`) its address fields decode to, leaves every other stream - every other pair, including the
+reversed pair (s, r) and pairs sharing the receiver or the sender - and the fee parameter exactly as they were. -/
+theorem c18_stream_message_writes_one_stream (x : SB) (now : Int) (blocked : Addr → Bool) (rT sT : AddrTok) (r s : Addr)
+    (hr : rT.decode = some r) (hs : sT.decode = some s) :
+    (∀ denom amt rate x', createStream x now blocked rT sT denom amt rate = .ok x' → OthersSame x x' r s) ∧
+    (∀ y, claimStream x now blocked rT sT = .ok y → OthersSame x y.1 r s) ∧
+    (∀ denom amt y, topUpDeposit x now blocked rT sT denom amt = .ok y → OthersSame x y.1 r s) ∧
+    (∀ rate x', updateFlowRate x now blocked rT sT rate = .ok x' → OthersSame x x' r s) ∧
+    (∀ x', cancelStreamMsg x now blocked rT sT = .ok x' → OthersSame x x' r s) := by
+  refine ⟨?_, ?_, ?_, ?_, ?_⟩
+  · intro denom amt rate x' h
+    simp only [createStream, bind_eq_ok, require_eq_ok, decodeM_eq_ok] at h
+    obtain ⟨s0, hs0, r0, hr0, _, _, _, _, _, _, _, _, _, _, _, _, h⟩ := h
+    rw [hs] at hs0; rw [hr] at hr0; cases hs0; cases hr0
+    have h1 : OthersSame x { x with str := setStream x r s (Stream.mk denom 0 rate now 0 true) } r s :=
+      ⟨rfl, fun k hk => AL.find_insert_ne _ _ _ _ (Ne.symm hk)⟩
+    exact othersSame_trans h1 (addDeposit_frame _ x' now blocked r s denom amt h)
+  · intro y h
+    simp only [claimStream, bind_eq_ok, require_eq_ok, decodeM_eq_ok] at h
+    obtain ⟨s0, hs0, r0, hr0, _, _, h⟩ := h
+    rw [hs] at hs0; rw [hr] at hr0; cases hs0; cases hr0
+    exact claim_frame x now blocked r s y h
+  · intro denom amt y h
+    simp only [topUpDeposit, bind_eq_ok, pure_eq_ok, require_eq_ok, decodeM_eq_ok] at h
+    obtain ⟨s0, hs0, r0, hr0, _, _, st, _, _, _, x', hx', rfl⟩ := h
+    rw [hs] at hs0; rw [hr] at hr0; cases hs0; cases hr0
+    exact addDeposit_frame x x' now blocked r s denom amt hx'
+  · intro rate x' h
+    simp only [updateFlowRate, bind_eq_ok, require_eq_ok, decodeM_eq_ok] at h
+    obtain ⟨s0, hs0, r0, hr0, _, _, _, _, h⟩ := h
+    rw [hs] at hs0; rw [hr] at hr0; cases hs0; cases hr0
+    exact setNewFlowRate_frame x x' now blocked r s rate h
+  · intro x' h
+    simp only [cancelStreamMsg, bind_eq_ok, require_eq_ok, decodeM_eq_ok] at h
+    obtain ⟨s0, hs0, r0, hr0, st, _, _, _, h⟩ := h
+    rw [hs] at hs0; rw [hr] at hr0; cases hs0; cases hr0
+    exact cancelStream_frame x x' now blocked r s h
+
+/-- **A storage purchase writes one limit; a registration writes one new identifier.**  A successful purchase for `id`
+leaves every registration, every record and every other registration's limit as they were; a successful registration
+(which receives `s.nextId`) leaves every record and every other identifier's registration and limit as they were. -/
+theorem c18_purchase_and_registration_write_one_entry (s : RegState) :
+    (∀ id n o s' k, s.purchase id n o = .ok (s', k) →
+      s'.regs = s.regs ∧ s'.recs = s.recs ∧ ∀ j, j ≠ id → AL.find? s'.limits j = AL.find? s.limits j) ∧
+    (∀ now mk nm gn ty o s' id, s.register now mk nm gn ty o = .ok (s', id) →
+      id = s.nextId ∧ s'.recs = s.recs ∧
+      ∀ j, j ≠ id → AL.find? s'.regs j = AL.find? s.regs j ∧ AL.find? s'.limits j = AL.find? s.limits j) := by
+  constructor
+  · intro id n o s' k h
+    simp only [RegState.purchase, bind_eq_ok, pure_eq_ok, require_eq_ok, decodeM_eq_ok, Prod.mk.injEq] at h
+    obtain ⟨_, _, _, _, _, _, _, _, rfl, _⟩ := h
+    exact ⟨rfl, rfl, fun j hj => AL.find_insert_ne _ _ _ _ (Ne.symm hj)⟩
+  · intro now mk nm gn ty o s' id h
+    simp only [RegState.register, bind_eq_ok, pure_eq_ok, require_eq_ok, decodeM_eq_ok, Prod.mk.injEq] at h
+    obtain ⟨_, _, _, _, _, _, _, _, rfl, rfl⟩ := h
+    refine ⟨rfl, rfl, fun j hj => ⟨?_, ?_⟩⟩
+    · exact AL.find_insert_ne _ _ _ _ (Ne.symm hj)
+    · exact AL.find_insert_ne _ _ _ _ (Ne.symm hj)
+
+/-- **An unlock writes one account's books.**  `UnlockCoinsForFees` for the fee payer leaves the locked record and the
+spent record of every other address, the orders, the queues and the whitelist exactly as they were - whichever of its three
+branches is taken. -/
+theorem c18_unlock_writes_one_account (x x' : EB) (nowSec : Int) (payer : Addr) (fees : Coins)
+    (h : x.unlockForFees nowSec payer fees = .ok x') :
+    (∀ b, b ≠ payer → AL.find? x'.ent.locked b = AL.find? x.ent.locked b ∧ AL.find? x'.ent.spent b = AL.find? x.ent.spent b) ∧
+    x'.ent.orders = x.ent.orders ∧ x'.ent.raisedQ = x.ent.raisedQ ∧ x'.ent.acceptedQ = x.ent.acceptedQ ∧
+    x'.ent.whitelist = x.ent.whitelist ∧ x'.ent.params = x.ent.params := by
+  have dec : ∀ (y y' : EB) (c : Coin), y.decrementLocked payer c = .ok y' →
+      (∀ b, b ≠ payer → AL.find? y'.ent.locked b = AL.find? y.ent.locked b) ∧ y'.ent.spent = y.ent.spent ∧
+      y'.ent.orders = y.ent.orders ∧ y'.ent.raisedQ = y.ent.raisedQ ∧ y'.ent.acceptedQ = y.ent.acceptedQ ∧
+      y'.ent.whitelist = y.ent.whitelist ∧ y'.ent.params = y.ent.params := by
+    intro y y' c hd
+    simp only [EB.decrementLocked, bind_eq_ok, pure_eq_ok] at hd
+    obtain ⟨_, _, _, _, rfl⟩ := hd
+    exact ⟨fun b hb => AL.find_insert_ne _ _ _ _ (Ne.symm hb), rfl, rfl, rfl, rfl, rfl, rfl⟩
+  have inc : ∀ (y y' : EB) (c : Coin), y.incrementSpent payer c = .ok y' →
+      (∀ b, b ≠ payer → AL.find? y'.ent.spent b = AL.find? y.ent.spent b) ∧ y'.ent.locked = y.ent.locked ∧
+      y'.ent.orders = y.ent.orders ∧ y'.ent.raisedQ = y.ent.raisedQ ∧ y'.ent.acceptedQ = y.ent.acceptedQ ∧
+      y'.ent.whitelist = y.ent.whitelist ∧ y'.ent.params = y.ent.params := by
+    intro y y' c hd
+    simp only [EB.incrementSpent, bind_eq_ok, pure_eq_ok] at hd
+    obtain ⟨_, _, _, _, rfl⟩ := hd
+    exact ⟨fun b hb => AL.find_insert_ne _ _ _ _ (Ne.symm hb), rfl, rfl, rfl, rfl, rfl, rfl⟩
+  have both : ∀ (y y1 y' : EB) (c : Coin), y.ent = x.ent → y.decrementLocked payer c = .ok y1 → y1.incrementSpent payer c = .ok y' →
+      (∀ b, b ≠ payer → AL.find? y'.ent.locked b = AL.find? x.ent.locked b ∧ AL.find? y'.ent.spent b = AL.find? x.ent.spent b) ∧
+      y'.ent.orders = x.ent.orders ∧ y'.ent.raisedQ = x.ent.raisedQ ∧ y'.ent.acceptedQ = x.ent.acceptedQ ∧
+      y'.ent.whitelist = x.ent.whitelist ∧ y'.ent.params = x.ent.params := by
+    intro y y1 y' c hy h1 h2
+    obtain ⟨d1, d2, d3, d4, d5, d6, d7⟩ := dec y y1 c h1
+    obtain ⟨i1, i2, i3, i4, i5, i6, i7⟩ := inc y1 y' c h2
+    rw [← hy]
+    exact ⟨fun b hb => ⟨by rw [i2]; exact d1 b hb, by rw [i1 b hb, d2]⟩, i3.trans d3, i4.trans d4, i5.trans d5, i6.trans d6, i7.trans d7⟩
+  simp only [EB.unlockForFees, bind_eq_ok, require_eq_ok] at h
+  obtain ⟨_, _, h⟩ := h
+  split at h
+  · simp only [bind_eq_ok] at h
+    obtain ⟨bank, _, x1, h1, h2⟩ := h
+    exact both { ent := x.ent, bank := bank } x1 x' _ rfl h1 h2
+  · split at h
+    · simp only [bind_eq_ok] at h
+      obtain ⟨bank, _, x1, h1, h2⟩ := h
+      exact both { ent := x.ent, bank := bank } x1 x' _ rfl h1 h2
+    · simp only [pure_eq_ok] at h
+      subst h
+      exact ⟨fun _ _ => ⟨rfl, rfl⟩, rfl, rfl, rfl, rfl, rfl⟩
+
+/-- **A completion writes one order and one account's locked record.**  Completing the accepted order `id` (mint to the
+purchaser and lock) leaves every other order, the locked record of every address but the purchaser, every spent record,
+the raised queue and the whitelist exactly as they were. -/
+theorem c18_completion_writes_one_order_and_one_account (x x' : EB) (nowSec : Int) (blocked : Addr → Bool) (id : Nat)
+    (h : x.completeOne nowSec blocked id = .ok x') :
+    ∃ po purchaser, AL.find? x.ent.orders id = some po ∧ po.purchaser.decode = some purchaser ∧
+      (∀ j, j ≠ id → AL.find? x'.ent.orders j = AL.find? x.ent.orders j) ∧
+      (∀ b, b ≠ purchaser → AL.find? x'.ent.locked b = AL.find? x.ent.locked b) ∧
+      x'.ent.spent = x.ent.spent ∧ x'.ent.raisedQ = x.ent.raisedQ ∧ x'.ent.whitelist = x.ent.whitelist ∧
+      x'.ent.params = x.ent.params := by
+  have inc : ∀ (y y' : EB) (a : Addr) (c : Coin), y.incrementLocked a c = .ok y' →
+      (∀ b, b ≠ a → AL.find? y'.ent.locked b = AL.find? y.ent.locked b) ∧ y'.ent.spent = y.ent.spent ∧
+      y'.ent.orders = y.ent.orders ∧ y'.ent.raisedQ = y.ent.raisedQ ∧ y'.ent.acceptedQ = y.ent.acceptedQ ∧
+      y'.ent.whitelist = y.ent.whitelist ∧ y'.ent.params = y.ent.params := by
+    intro y y' a c hd
+    simp only [EB.incrementLocked, bind_eq_ok, pure_eq_ok] at hd
+    obtain ⟨_, _, _, _, rfl⟩ := hd
+    exact ⟨fun b hb => AL.find_insert_ne _ _ _ _ (Ne.symm hb), rfl, rfl, rfl, rfl, rfl, rfl⟩
+  have mint : ∀ (y y' : EB) (a : Addr) (c : Coin), y.mintAndLock nowSec blocked a c = .ok y' →
+      (∀ b, b ≠ a → AL.find? y'.ent.locked b = AL.find? y.ent.locked b) ∧ y'.ent.spent = y.ent.spent ∧
+      y'.ent.orders = y.ent.orders ∧ y'.ent.raisedQ = y.ent.raisedQ ∧ y'.ent.acceptedQ = y.ent.acceptedQ ∧
+      y'.ent.whitelist = y.ent.whitelist ∧ y'.ent.params = y.ent.params := by
+    intro y y' a c hm
+    unfold EB.mintAndLock at hm
+    split at hm
+    · cases hm; exact ⟨fun _ _ => rfl, rfl, rfl, rfl, rfl, rfl, rfl⟩
+    · simp only [bind_eq_ok, require_eq_ok] at hm
+      obtain ⟨_, _, b1, _, _, _, b2, _, b3, _, hm⟩ := hm
+      exact inc { ent := y.ent, bank := b3 } y' a c hm
+  unfold EB.completeOne at h
+  split at h
+  · cases h
+  · rename_i po hpo
+    split at h
+    · cases h
+    · split at h
+      · cases h
+      · rename_i purchaser hp
+        simp only [bind_eq_ok, pure_eq_ok] at h
+        obtain ⟨x2, hx2, rfl⟩ := h
+        have asP : ∀ (r : M EB) (v : EB), EB.asPanic r = .ok v → r = .ok v := by
+          intro r v hr
+          cases r with
+          | ok w => simpa [EB.asPanic] using hr
+          | error e => cases e <;> simp [EB.asPanic] at hr
+        have hx2' := asP _ _ hx2
+        obtain ⟨m1, m2, m3, m4, m5, m6, m7⟩ := mint _ x2 purchaser _ hx2'
+        refine ⟨po, purchaser, hpo, hp, fun j hj => ?_, m1, m2, m4, m6, m7⟩
+        show AL.find? x2.ent.orders j = _
+        rw [m3]
+        exact AL.find_insert_ne _ _ _ _ (Ne.symm hj)
+
+/-- what a message of one module may leave changed in the OTHER modules' sections: nothing -/
+def OtherModulesSame (s s' : State) : Msg → Prop
+  | .entRaise .. | .entDecide .. | .entWl .. | .entParams .. =>
+      s'.wrk = s.wrk ∧ s'.bcn = s.bcn ∧ s'.str = s.str ∧ s'.bank = s.bank
+  | .regReg k .. | .regRec k .. | .regBuy k .. | .regParams k .. =>
+      s'.ent = s.ent ∧ s'.str = s.str ∧ s'.bank = s.bank ∧ (match k with | .wrk => s'.bcn = s.bcn | .bcn => s'.wrk = s.wrk)
+  | .strCreate .. | .strClaim .. | .strTopup .. | .strRate .. | .strCancel .. | .strParams .. =>
+      s'.ent = s.ent ∧ s'.wrk = s.wrk ∧ s'.bcn = s.bcn
+  | .bankSend .. | .authzGrant .. | .authzRevoke .. | .feegrantGrant .. =>
+      s'.ent = s.ent ∧ s'.wrk = s.wrk ∧ s'.bcn = s.bcn ∧ s'.str = s.str
+  | .authzExec .. => True
+
+/-- **The four modules' sections never alias each other**: an enterprise message writes the enterprise section only (not
+even a balance), a WRKChain message the WRKChain section only and a BEACON message the BEACON section only (the two
+registries share their code, not their state), a stream message the stream section and balances, and bank, authz and
+fee-grant messages none of the four. -/
+theorem c18_modules_do_not_write_each_other (wall : Nat) (s s' : State) (m : Msg) (r : Resp)
+    (h : execMsg wall s m = .ok (s', r)) : OtherModulesSame s s' m := by
+  cases m with
+  | authzExec g ms => trivial
+  | regReg k mk nm gn ty o =>
+    simp only [execMsg, bind_eq_ok, pure_eq_ok, Prod.mk.injEq] at h
+    obtain ⟨x, _, rfl, _⟩ := h
+    cases k <;> simp [OtherModulesSame, State.setReg]
+  | regRec k id key rc o =>
+    simp only [execMsg, bind_eq_ok, pure_eq_ok, Prod.mk.injEq] at h
+    obtain ⟨x, _, rfl, _⟩ := h
+    cases k <;> simp [OtherModulesSame, State.setReg]
+  | regBuy k id n o =>
+    simp only [execMsg, bind_eq_ok, pure_eq_ok, Prod.mk.injEq] at h
+    obtain ⟨x, _, rfl, _⟩ := h
+    cases k <;> simp [OtherModulesSame, State.setReg]
+  | regParams k auth p =>
+    simp only [execMsg, bind_eq_ok, pure_eq_ok, Prod.mk.injEq] at h
+    obtain ⟨_, _, x, _, rfl, _⟩ := h
+    cases k <;> simp [OtherModulesSame, State.setReg]
+  | _ =>
+    simp only [execMsg, bind_eq_ok, pure_eq_ok, Prod.mk.injEq] at h
+    first
+      | (obtain ⟨_, _, rfl, _⟩ := h; simp [OtherModulesSame, liftSB])
+      | (obtain ⟨_, _, _, _, rfl, _⟩ := h; simp [OtherModulesSame, liftSB])
+      | (obtain ⟨_, _, _, _, _, _, rfl, _⟩ := h; simp [OtherModulesSame, liftSB])
+      | (obtain ⟨_, _, _, _, _, _, _, _, rfl, _⟩ := h; simp [OtherModulesSame, liftSB])
 
 -- non-vacuity: concrete keys
 example : u64be 18446744073709551615 = [255,255,255,255,255,255,255,255] := by decide
